@@ -19,7 +19,7 @@ from __future__ import annotations
 import ast
 import re
 
-from gridlint import e3
+from gridlint import e3, e6
 from gridlint.core import AnalysisError, Report, norm, strip_docstring
 from gridlint.props.common import get_repo
 
@@ -375,6 +375,39 @@ def rule_r5_r6(rep, repo, classes):
     rep.floor("__getitem__ definitions", n, 4)
 
 
+def rule_r8(rep, repo):
+    """Integer index turned into a slice: `slice(i, i + 1)` / `[i:i + 1]` selects nothing for i = -1
+    (slice(-1, 0)); the integer must be normalised first (known-wrong shape otherwise)."""
+    n = 0
+    for k in repo.subclasses("Grid"):
+        g = repo.classes[k].methods.get("__getitem__")
+        if g is None:
+            continue
+        idx = g.params[1] if len(g.params) > 1 else "index"
+        for node, guards in e6.guarded_nodes(g.node):
+            lo = hi = None
+            if isinstance(node, ast.Call) and norm(node.func) == "slice" and len(node.args) == 2:
+                lo, hi = node.args
+            elif isinstance(node, ast.Slice) and node.lower is not None and node.upper is not None and node.step is None:
+                lo, hi = node.lower, node.upper
+            if lo is None or norm(lo) != idx or norm(hi) not in (f"{idx} + 1", f"1 + {idx}"):
+                continue
+            n += 1
+            # normalisation of negative integers before the conversion?
+            normalised = any(isinstance(s, ast.If) and s.lineno < node.lineno and norm(s.test) in (f"{idx} < 0", f"0 > {idx}")
+                             for s in ast.walk(g.node)) or \
+                any(isinstance(s, ast.Assign) and norm(s.targets[0]) == idx and "%" in norm(s.value) and s.lineno < node.lineno
+                    for s in ast.walk(g.node))
+            if normalised:
+                rep.ok("R8.integer-to-slice", g.qual, repo.rel(g.module, node), "negative integers normalised first")
+            else:
+                rep.violation("R8.integer-to-slice", g.qual, idx,
+                              f"`{norm(node)[:60]}` turns the integer index into a slice without normalising negative "
+                              f"values: grid[-1] becomes slice(-1, 0) and selects no point instead of the last one",
+                              repo.rel(g.module, node))
+    return n
+
+
 def rule_r7(rep, repo):
     n = 0
     for k in repo.subclasses("Grid"):
@@ -426,6 +459,7 @@ def run(tier="quick", root="/repo", evidence_dir=None, quiet=False):
     rule_r4(rep, repo)
     rule_r5_r6(rep, repo, classes)
     rule_r7(rep, repo)
+    rule_r8(rep, repo)
     rep.extra.update({"concrete_grid_classes": classes,
                       "source_digest": repo.digest(["basegrid", "atomgrid", "molgrid", "cubic", "periodicgrid",
                                                     "ngrid", "onedgrid", "angular"])})
